@@ -163,6 +163,58 @@ def named_source(body, operand, depth=8):
     return None
 
 
+def role(body, o, depth=8):
+    """name-independent description of where an operand's value comes from: 'param:N', 'call:f(args)', 'const:v',
+    '&x', 'x.field', through moves/copies of single-definition locals (user variable names are ignored)"""
+    if "fn" in o or "closure" in o:
+        return "fn"
+    if "k" in o:
+        return "const:%s" % (o.get("iv", o.get("str", o.get("k"))))
+    return role_place(body, F.op_place(o), depth)
+
+
+def role_place(body, p, depth=8):
+    if p is None or depth <= 0:
+        return "?"
+    l = p[0]
+    suffix = ""
+    for e in p[1:]:
+        if e == "*":
+            suffix += ".*"
+        elif isinstance(e, dict) and "n" in e:
+            suffix += "." + e["n"]
+        elif isinstance(e, dict) and "f" in e:
+            suffix += ".%d" % e["f"]
+        elif isinstance(e, dict) and "dc" in e:
+            suffix += " as " + e["dc"]
+        else:
+            suffix += "[]"
+    if 1 <= l <= body.argc:
+        return "param:%d%s" % (l, suffix)
+    ds = body.defs().get(l, [])
+    if len(ds) != 1:
+        return "local(%d defs)%s" % (len(ds), suffix)
+    bi, si, kind, payload = ds[0]
+    if kind == "call":
+        d = payload["f"].get("def", "?")
+        name = d.rsplit("::", 1)[-1]
+        return "call:%s(%s)%s" % (name, ",".join(role(body, a, depth - 1) for a in payload["args"]), suffix)
+    if kind != "assign":
+        return "local%s" % suffix
+    r = payload
+    if r["rv"] == "use":
+        return role(body, r["o"], depth - 1) + suffix
+    if r["rv"] in ("ref", "rawptr"):
+        return "&" + role_place(body, r["p"], depth - 1) + suffix
+    if r["rv"] == "cast":
+        return role(body, r["o"], depth - 1) + suffix
+    if r["rv"] == "bin":
+        return "(%s %s %s)%s" % (role(body, r["a"], depth - 1), r["op"].replace("WithOverflow", ""), role(body, r["b"], depth - 1), suffix)
+    if r["rv"] == "agg":
+        return "agg" + suffix
+    return r["rv"] + suffix
+
+
 VIEW_CALLS = ("::deref", "::deref_mut", "::as_ref", "::as_mut", "::as_slice", "::as_mut_slice", "::borrow", "::as_bytes", "::as_str")
 
 
